@@ -18,6 +18,7 @@ import (
 	"os"
 	"os/exec"
 	"path/filepath"
+	"regexp"
 	"runtime"
 	"sort"
 	"strconv"
@@ -614,11 +615,13 @@ func crashInLibrary(out string) bool {
 	if !strings.Contains(out, "panic:") && !strings.Contains(out, "fatal error:") {
 		return false
 	}
-	i := strings.Index(out, "goroutine ")
-	if i < 0 {
+	// the traceback of the goroutine that was running (not the word "goroutine" in a message
+	// such as "goroutine stack exceeds ...")
+	loc := regexp.MustCompile(`(?m)^goroutine \d+[^\n]*\[running[^\n]*\]:`).FindStringIndex(out)
+	if loc == nil {
 		return false
 	}
-	tb := out[i:]
+	tb := out[loc[0]:]
 	if j := strings.Index(tb, "\n\n"); j > 0 {
 		tb = tb[:j]
 	}
